@@ -187,7 +187,7 @@ PROPS = {
                         "printable values without surrounding whitespace (the property's quantifier)"],
     },
     "C18": {
-        "proof_files": ["Proofs/DiscoveryFacts.v", "Proofs/ConfigFacts.v", "Proofs/LeaseFacts.v", "Proofs/SortedFacts.v", "Proofs/MdnsFacts.v", "Proofs/RefreshFacts.v", "Proofs/RefreshHosts.v"],
+        "proof_files": ["Proofs/DiscoveryFacts.v", "Proofs/ConfigFacts.v", "Proofs/LeaseFacts.v", "Proofs/SortedFacts.v", "Proofs/MdnsFacts.v", "Proofs/RefreshFacts.v", "Proofs/RefreshHosts.v", "Proofs/RefreshAway.v"],
         "runs": [{"engine": "discovery", "args": [], "n_quick": 2500, "n_thorough": 200000},
                  {"engine": "refresh", "args": [], "n_quick": 400, "n_thorough": 40000, "netns": True, "mountns": True},
                  {"engine": "mdns", "args": [], "n_quick": 12, "n_thorough": 400, "netns": True}],
